@@ -474,7 +474,8 @@ def run(ctx):
     log("C10 model checking + generation done %.0fs (%d behaviours)" % (ctx.timer.s(), len(behs)))
     insts = concretise(ctx, behs)
     replay_all(ctx, exe, insts)
-    selftest(ctx, exe, insts)
+    if not ctx.violations:       # (on a tree that already violates, the self-test behaviour itself may hang / crash)
+        selftest(ctx, exe, insts)
     log("C10 replay done %.0fs" % ctx.timer.s())
     record_validate(ctx, exe)
 
